@@ -407,4 +407,33 @@ func (w *World) thorough(id string, def propDef, run *Run) {
 		}
 	}
 	run.Extra["self_validation"] = map[string]any{"variants": len(vs), "detected": det, "missed": miss, "skipped": skip, "results": results, "seed": w.Seed}
+	// (4) behaviour-preserving refactorings (/verif/refactor/*/patch.diff, produced and
+	// differentially tested by independent sub-agents): the property must stay silent
+	rdirs, _ := filepath.Glob(filepath.Join(w.Verif, "refactor", "*", "patch.diff"))
+	sort.Strings(rdirs)
+	rres := make([]variantResult, len(rdirs))
+	for i := range rdirs {
+		wg.Add(1)
+		go func(i int) {
+			defer wg.Done()
+			sem <- struct{}{}
+			defer func() { <-sem }()
+			rres[i] = runVariant(self, w.Repo, id, variant{Name: "refactor/" + filepath.Base(filepath.Dir(rdirs[i])), Patch: rdirs[i]})
+		}(i)
+	}
+	wg.Wait()
+	silent, alarms, rskip := 0, 0, 0
+	for _, r := range rres {
+		switch {
+		case strings.HasPrefix(r.Outcome, "missed"):
+			silent++
+		case strings.HasPrefix(r.Outcome, "skipped"):
+			rskip++
+		default:
+			alarms++
+			fmt.Printf("SELF-VALIDATION: property=%s false alarm on the behaviour-preserving %s: %s\n", id, r.Name, r.Reported)
+			run.Notes = append(run.Notes, "self-validation: false alarm on behaviour-preserving "+r.Name+": "+r.Reported)
+		}
+	}
+	run.Extra["refactoring_corpus"] = map[string]any{"patches": len(rdirs), "silent": silent, "false_alarms": alarms, "skipped": rskip}
 }
